@@ -3,6 +3,7 @@
 R06-a who-may-write + EmitMode→emitter table · R06-b exit-code truth tables · R06-c --check forces Diff ·
 R06-d has_diff faithful · R06-e single feed point · R06-f inequality guards fs::write
 """
+import re
 import effects
 from absint import explore, vkey, variant_name, check_table, TooManyPaths
 from common import short, match_name, switch_origin, switch_true_false
@@ -265,6 +266,8 @@ def run(ctx):
     single_feed(ctx, "R06-e")
     files_guard(ctx, "R06-f")
     original_text_lookup_ignores_the_kind_of_input(ctx, "R06-h")
+    import c12
+    c12.every_report_comes_from_the_line_diff(ctx, "R06-i")    # shared with C12: the reports of json / checkstyle / modified-lines imply the formatted text only if they carry diff::lines' end-of-text record
 
 
 # ---------------------------------------------------------------------------------------------
@@ -418,6 +421,18 @@ def has_diff_faithful(ctx, rid):
         "modified_lines::ModifiedLinesEmitter": "empty",
     }
     PURE = ("make_diff", "::is_empty", "::ne", "::eq", "print_misformatted_file_names")
+    # `ModifiedLines::from(mismatches)` makes one chunk per mismatch when its body is into_iter → map → collect and nothing else:
+    # then `chunks.is_empty()` is `mismatches.is_empty()` and the conversion may stand between make_diff and the test
+    conv = [g for g in p.fns.values() if g.kind != "Closure" and "ModifiedLines as std::convert::From<" in g.id and g.id.endswith("::from")]
+    one_to_one = False
+    if len(conv) == 1:
+        its = [re.sub(r"<.*?>", "", c.name).rsplit("::", 1)[-1] for c in conv[0].calls()
+               if "Iterator" in c.name or "IntoIterator" in c.name or (c.declared or "").startswith("std::iter::")]
+        one_to_one = bool(its) and set(its) <= {"into_iter", "map", "collect"} and its.count("collect") == 1 \
+            and not any(c.name.rsplit("::", 1)[-1] in ("push", "extend", "retain", "truncate", "pop", "remove", "insert", "dedup")
+                        for c in conv[0].calls())
+        if one_to_one:
+            PURE = PURE + (conv[0].id,)
     for em, kind in spec.items():
         fs = [f for f in p.fns.values() if f.id.endswith("::emit_formatted_file") and em in f.id]
         if len(fs) != 1:
@@ -466,6 +481,10 @@ def has_diff_faithful(ctx, rid):
                 # undecided on this path: must be the symbolic ¬is_empty(make_diff(original, formatted))
                 ok = got.startswith("!") and "::is_empty(" in got and "make_diff(arg3.original_text,arg3.formatted_text" in got \
                     and kind == "empty"
+                if ok and "::from(" in got:
+                    # only through the one-to-one conversion, and only its `chunks`
+                    ok = one_to_one and re.search(r"is_empty\(<rustfmt_diff::ModifiedLines as std::convert::From<[^()]*>>::from\("
+                                                  r"[^()]*make_diff\([^()]*\)\)\.chunks\)$", got) is not None
             n += 1
             r.instance(rid, "%s[empty=%s,ne=%s]" % (em, empty, ne), "ok" if ok else "violation",
                        "%s:%d" % (f.file, f.line), "has_diff=%s" % got)
